@@ -123,7 +123,7 @@ fn worker(batch: &str, o: &Opts, out: &mut dyn FnMut(String)) {
             let t: u8 = parts[1].parse().unwrap();
             let dir = parts[2];
             let bigcube: Vec<[f32; 3]> = cube.iter().cycle().take(cube.len() * 21 + 3).copied().collect();
-            for (name, px) in [("cube", cube.clone()), ("bits", random_bits(&mut rng, nrand)), ("unit", unit_cube(&mut rng, nrand / 4)), ("bigcube", bigcube), ("unit", unit_cube(&mut rng, 300_007))] {
+            for (name, px) in [("cube", cube.clone()), ("bits", random_bits(&mut rng, nrand)), ("unit", unit_cube(&mut rng, nrand / 4)), ("bigcube", bigcube), ("unit", unit_cube(&mut rng, 300_007)), ("unit", unit_cube(&mut rng, 70_001))] {
                 let mut s = format!("\"ev\":\"total\",\"stage\":\"tf\",\"tc\":{t},\"dir\":\"{dir}\",\"input\":\"{name}\",\"npx\":{},", px.len());
                 let w = px.len();
                 run_guarded(&mut s, |b| {
@@ -164,7 +164,7 @@ fn worker(batch: &str, o: &Opts, out: &mut dyn FnMut(String)) {
             // xyb / hsl stages
             for stage in ["lin2xyb", "xyb2lin", "lin2hsl", "hsl2lin"] {
                 let bigcube: Vec<[f32; 3]> = cube.iter().cycle().take(cube.len() * 21 + 3).copied().collect();
-                for (name, px) in [("cube", cube.clone()), ("bits", random_bits(&mut rng, nrand)), ("unit", unit_cube(&mut rng, nrand / 4)), ("bigcube", bigcube), ("unit", unit_cube(&mut rng, 300_007))] {
+                for (name, px) in [("cube", cube.clone()), ("bits", random_bits(&mut rng, nrand)), ("unit", unit_cube(&mut rng, nrand / 4)), ("bigcube", bigcube), ("unit", unit_cube(&mut rng, 300_007)), ("unit", unit_cube(&mut rng, 70_001))] {
                     let mut s = format!("\"ev\":\"total\",\"stage\":\"{stage}\",\"input\":\"{name}\",\"npx\":{},", px.len());
                     let w = px.len();
                     run_guarded(&mut s, |b| {
@@ -209,10 +209,13 @@ fn worker(batch: &str, o: &Opts, out: &mut dyn FnMut(String)) {
                 for (st, n) in [(8u8, 8u8), (16, 16), (16, 13)] {
                     let c = Cfg { mc: m, tc: 1, cp: 1, full: mi % 2 == 0, n, ssx: 0, ssy: 0 };
                     for (name, px) in [("bigcube", &bigcube), ("unit", &bigunit)] {
-                        let px = &px[..701 * 523];
-                        let mut s = format!("\"ev\":\"total\",\"stage\":\"enc\",\"cfg\":{},\"st\":{st},\"input\":\"{name}\",\"npx\":{},\"w\":701,\"h\":523,\"divisible\":1,", c.json(), px.len());
-                        run_guarded(&mut s, |b| if st == 8 { enc::<u8>(px, 701, 523, &c, b) } else { enc::<u16>(px, 701, 523, &c, b) });
-                        out(s);
+                        // a large frame, a smaller (still large) one, the large one again: buffers reused across calls must cope
+                        for (w, h) in [(701usize, 523usize), (401, 263), (701, 523), (257, 257)] {
+                            let px = &px[..w * h];
+                            let mut s = format!("\"ev\":\"total\",\"stage\":\"enc\",\"cfg\":{},\"st\":{st},\"input\":\"{name}\",\"npx\":{},\"w\":{w},\"h\":{h},\"divisible\":1,", c.json(), px.len());
+                            run_guarded(&mut s, |b| if st == 8 { enc::<u8>(px, w, h, &c, b) } else { enc::<u16>(px, w, h, &c, b) });
+                            out(s);
+                        }
                     }
                 }
             }
@@ -342,14 +345,40 @@ pub fn batches() -> Vec<String> {
         v.push(format!("enc:{m}"));
     }
     v.push("encbig".to_string());
+    // the same batches in a host process that has a `log` logger installed at Trace level
+    for b in ["log+tf:18:lin", "log+tf:1:gam", "log+prim:9:to709", "log+float", "log+enc:1", "log+enc:8", "log+encbig", "log+decgeom", "log+chain"] {
+        v.push(b.to_string());
+    }
     v.push("encgeom".to_string());
     v.push("decgeom".to_string());
     v.push("chain".to_string());
     v
 }
 
+/// a do-nothing `log` logger at Trace level: the library logs through the `log` facade, and whether the host process has
+/// installed a logger must not change what a conversion does (C13 quantifies over data and configs, not over hosts)
+struct NullLogger;
+impl log::Log for NullLogger {
+    fn enabled(&self, _: &log::Metadata) -> bool {
+        true
+    }
+    fn log(&self, r: &log::Record) {
+        // format the arguments as a real logger would
+        let _ = format!("{}", r.args());
+    }
+    fn flush(&self) {}
+}
+static NULL_LOGGER: NullLogger = NullLogger;
+
 /// child entry point: `yvx-conform c13worker <batch> --tier .. --seed ..` prints bodies to stdout
 pub fn worker_main(batch: &str, o: &Opts) {
+    let batch = if let Some(b) = batch.strip_prefix("log+") {
+        let _ = log::set_logger(&NULL_LOGGER);
+        log::set_max_level(log::LevelFilter::Trace);
+        b
+    } else {
+        batch
+    };
     let stdout = std::io::stdout();
     let mut lock = stdout.lock();
     worker(batch, o, &mut |s| {
